@@ -815,6 +815,18 @@ class Interp(object):
             if self.repo.has_cls(base.cls):
                 fi = self.repo.method(base.cls, attr, required=False)
                 if fi is not None:
+                    # (a class-level binding of a more derived class shadows a method of a base class)
+                    for c in self.repo.mro(base.cls):
+                        if attr in c.methods:
+                            break
+                        if attr in c.class_consts:
+                            v = self.class_value(c, attr)
+                            if v is not self.NOT_HANDLED:
+                                if isinstance(v, FuncRef) and v.bound is None and not v.fi.is_static:
+                                    return FuncRef(v.fi, bound=base, pre_args=v.pre_args)
+                                return v
+                            break
+                if fi is not None:
                     if fi.is_property:
                         return self.call_function(fi, [base], {}, node, frame)
                     if fi.is_static:
@@ -826,6 +838,9 @@ class Interp(object):
                         v = self.class_value(c, attr)
                         if v is self.NOT_HANDLED:
                             break
+                        if isinstance(v, FuncRef) and v.bound is None and not v.fi.is_static:
+                            # a function bound in the class body (made by a factory, say) is a method of the instance
+                            return FuncRef(v.fi, bound=base, pre_args=v.pre_args)
                         return v
                 if base.fields.get('__strict__') and not self.class_may_have(base.cls, attr):
                     raise Raise('AttributeError', node, self.where(node, frame), value='%s object has no attribute %s' % (base.cls, attr))
